@@ -342,6 +342,8 @@ func TestVerifC04(t *testing.T) {
 		rec(nil, c04Alphabet([]string{"X"}, false), 3)
 		rec(nil, []mOp{{"enqueue", "X", 1}, {"block", "X", 0}, {"received", "Y", 1}, {"accept", "Y", 0}, {Kind: "cr-reset"}}, 3)
 	}
+	// subjects that go back and forth: a group joined, left and joined again; requests switched on and off
+	rec(nil, []mOp{{Kind: "join"}, {Kind: "leave"}, {Kind: "cr-enable"}, {Kind: "cr-disable"}}, 4)
 	workers := 12
 	ch := make(chan []mOp, 64)
 	var wg sync.WaitGroup
